@@ -8,10 +8,10 @@ echo "== suite with change"
 cargo test --workspace --no-fail-fast --offline > SEEDED/suite.log 2>&1
 grep -E "^test result" SEEDED/suite.log | awk '{p+=$4; f+=$6} END {print "passed",p,"failed",f}'
 echo "== demo with change"
-bash SEEDED/demo.sh > SEEDED/demo_with.log 2>&1; echo "exit $?"
+bash SEEDED/demo.sh > SEEDED/demo_with.log 2>&1 < /dev/null; echo "exit $?"
 git diff -- . ':!SEEDED' > /tmp/confirm_patch.$$.diff
 git apply -R /tmp/confirm_patch.$$.diff || { echo "cannot revert"; exit 2; }
 echo "== demo without change"
-bash SEEDED/demo.sh > SEEDED/demo_without.log 2>&1; echo "exit $?"
+bash SEEDED/demo.sh > SEEDED/demo_without.log 2>&1 < /dev/null; echo "exit $?"
 git apply /tmp/confirm_patch.$$.diff
 rm -f /tmp/confirm_patch.$$.diff
